@@ -15,7 +15,10 @@ use crate::{
     },
     types::{ObjectId, PageId, RowId, TransactionId},
 };
-use std::sync::Arc;
+use std::sync::{
+    Arc,
+    atomic::{AtomicBool, Ordering},
+};
 
 /// Context of a single thread. Cannot commit transactions by itself.
 #[derive(Clone)]
@@ -99,6 +102,8 @@ pub(crate) struct TransactionLogger {
     tid: TransactionId,
     pager: SharedPager,
     last_lsn: Arc<RwLock<u64>>,
+    /// When set, operations are executed but not appended to the log (used while replaying the log).
+    muted: Arc<AtomicBool>,
 }
 
 impl Clone for TransactionLogger {
@@ -107,6 +112,7 @@ impl Clone for TransactionLogger {
             tid: self.tid,
             pager: self.pager.clone(),
             last_lsn: Arc::clone(&self.last_lsn),
+            muted: Arc::clone(&self.muted),
         }
     }
 }
@@ -117,8 +123,15 @@ impl TransactionLogger {
             tid: xid,
             pager,
             last_lsn: Arc::new(RwLock::new(last_lsn)),
+            muted: Arc::new(AtomicBool::new(false)),
         }
     }
+
+    /// Stop appending to the log: recovery re-executes logged operations and must not log them again.
+    pub(crate) fn mute(&self) {
+        self.muted.store(true, Ordering::SeqCst);
+    }
+
     pub(crate) fn log_commit(&self) -> RuntimeResult<()> {
         self.log_operation(Commit)?;
         Ok(())
@@ -141,6 +154,9 @@ impl TransactionLogger {
     }
 
     fn log_operation<O: Operation>(&self, operation: O) -> RuntimeResult<()> {
+        if self.muted.load(Ordering::SeqCst) {
+            return Ok(());
+        }
         let new_last_lsn =
             self.pager
                 .write()
